@@ -25,7 +25,7 @@ def site_of(chain):
 
 
 def groups(chain, L, reach=None):
-    """Pool of hermitian term groups ``(name, [(term, conjugate_coefficient), ...])`` on sites ``0..L-1`` (finite) or
+    """Pool of hermitian term groups ``(kind, positions, [(term, conjugate_coefficient), ...])`` on sites ``0..L-1`` (finite) or
     starting in the unit cell ``0..L-1`` and reaching at most `reach` sites further (infinite)."""
     if reach is None:
         pos = lambda k: list(itertools.combinations(range(L), k))  # noqa: E731
@@ -35,13 +35,13 @@ def groups(chain, L, reach=None):
     herm_pm = chain == 'S:None'  # (Sigmax, Sigmay are hermitian themselves)
     out = []
     for (i,) in pos(1):
-        out.append(('Z%d' % i, [([(z, i)], False)]))
+        out.append(('Z', (i,), [([(z, i)], False)]))
     for i, j in pos(2):
-        out.append(('ZZ%d.%d' % (i, j), [([(z, i), (z, j)], False)]))
-        out.append(('PM%d.%d' % (i, j), [([(p, i), (m, j)], False)] + ([] if herm_pm else [([(p, j), (m, i)], True)])))
+        out.append(('ZZ', (i, j), [([(z, i), (z, j)], False)]))
+        out.append(('PM', (i, j), [([(p, i), (m, j)], False)] + ([] if herm_pm else [([(p, j), (m, i)], True)])))
     for i, j, k in pos(3):
-        out.append(('ZZZ%d.%d.%d' % (i, j, k), [([(z, i), (z, j), (z, k)], False)]))
-        out.append(('PZM%d.%d.%d' % (i, j, k), [([(p, i), (z, j), (m, k)], False)] + ([] if herm_pm else [([(p, k), (z, j), (m, i)], True)])))
+        out.append(('ZZZ', (i, j, k), [([(z, i), (z, j), (z, k)], False)]))
+        out.append(('PZM', (i, j, k), [([(p, i), (z, j), (m, k)], False)] + ([] if herm_pm else [([(p, k), (z, j), (m, i)], True)])))
     return out
 
 
@@ -54,7 +54,7 @@ def spec_from_groups(chain, L, grps, rng, bc='finite', herm=True, cplx=False, **
     """MPO specification with seeded coefficients: hermitian (each group with its conjugate partner) or, for
     ``herm=False``, only the first term of each group with a complex coefficient."""
     terms, coefs = [], []
-    for _name, members in grps:
+    for _kind, _pos, members in grps:
         c = coef(rng, cplx or not herm)
         if len(members) == 1 and herm:
             c[1] = 0.
@@ -121,8 +121,8 @@ def sector_vectors(chain, L, rng, nmax=2):
         for idx, t in enumerate(tot):
             secs.setdefault(int(t), []).append(idx)
     out = []
-    keys = sorted(secs, key=lambda k: (-len(secs[k]), k))
-    for key in [keys[k % len(keys)] for k in range(nmax)] if len(keys) < nmax else keys[:nmax]:
+    keys = sorted(secs, key=lambda k: (-len(secs[k]), k))[:2]  # (the two largest sectors, used in turn)
+    for key in [keys[k % len(keys)] for k in range(nmax)]:
         v = np.zeros(site.dim ** L, complex)
         idx = np.asarray(secs[key])
         v[idx] = rng.standard_normal(len(idx)) + 1j * rng.standard_normal(len(idx))
@@ -153,11 +153,12 @@ def product_state(chain, L, pattern):
 
 
 def finite_states(chain, L, rng):
-    """[(name, MPS)]: a product state and random states per charge sector in forms B / A / mixed, one with norm != 1."""
+    """[(name, MPS)]: a product state and three random states (two charge sectors) in forms B / A / mixed, one with
+    norm != 1."""
     site = site_of(chain)
     out = [('product', product_state(chain, L, [0, site.dim - 1]))]
     forms = [('B', 1.), ('A', 1.7), ('mixed', 1.)]
-    for k, v in enumerate(sector_vectors(chain, L, rng)):
+    for k, v in enumerate(sector_vectors(chain, L, rng, 3)):
         form, nrm = forms[k % len(forms)]
         out.append(('sector%d:%s' % (k, form), mps_from_vector(chain, L, v, form, nrm)))
     return out
@@ -172,7 +173,7 @@ def infinite_state(chain, L, rng, layers=2, chi_max=6):
     sites = [site] * L
     psi = MPS.from_product_state(sites, [(0 if i % 2 else site.dim - 1) for i in range(L)], 'infinite', unit_cell_width=L)
     grp = groups(chain, 2)
-    hd = sum((rng.uniform(0.5, 1.5) * D.terms_dense([site, site], [t for t, _ in mem], [1.] * len(mem), jw=True) for _, mem in grp), 0.)
+    hd = sum((rng.uniform(0.5, 1.5) * D.terms_dense([site, site], [t for t, _ in mem], [1.] * len(mem), jw=True) for _, _, mem in grp), 0.)
     h = npc.Array.from_ndarray(hd.reshape([site.dim] * 4), [site.leg, site.leg, site.leg.conj(), site.leg.conj()], labels=['p0', 'p1', 'p0*', 'p1*'])
     h = h.combine_legs([['p0', 'p1'], ['p0*', 'p1*']], qconj=[+1, -1])
     with warnings.catch_warnings():
